@@ -96,6 +96,14 @@ func (t *ftr) assignedOutside(nodes []ast.Node, lo, hi token.Pos) []types.Object
 				}
 			case *ast.IncDecStmt:
 				add(s.X)
+			case *ast.CallExpr:
+				if id, ok := s.Fun.(*ast.Ident); ok && id.Name == "copy" && len(s.Args) == 2 {
+					if sl, ok := s.Args[0].(*ast.SliceExpr); ok {
+						add(sl.X)
+					} else {
+						add(s.Args[0])
+					}
+				}
 			case *ast.FuncLit:
 				t.fail(s, "function literal")
 			}
@@ -172,6 +180,14 @@ func (t *ftr) stmts(list []ast.Stmt, c *cctx, k cont) string {
 				if _, isB := t.p.info.Uses[id].(*types.Builtin); isB {
 					return "GPanic PExplicit"
 				}
+			}
+		}
+		if call, ok := x.X.(*ast.CallExpr); ok {
+			if t.ignoredCall(call) {
+				return next()
+			}
+			if txt, ok := t.copyCall(call, "_"); ok {
+				return txt + next()
 			}
 		}
 		t.fail(x, "expression statement %s", types.ExprString(x.X))
@@ -311,7 +327,90 @@ func (t *ftr) declStmt(x *ast.DeclStmt) string {
 	return b.String()
 }
 
+// a call named in the spec's ignore_calls (logging): <import path>.<Name>
+func (t *ftr) ignoredCall(call *ast.CallExpr) bool {
+	sel, ok := call.Fun.(*ast.SelectorExpr)
+	if !ok {
+		return false
+	}
+	id, ok := sel.X.(*ast.Ident)
+	if !ok {
+		return false
+	}
+	pn, ok := t.p.info.Uses[id].(*types.PkgName)
+	if !ok {
+		return false
+	}
+	for _, ic := range t.T.sp.IgnoreCalls {
+		if ic == pn.Imported().Path()+"."+sel.Sel.Name {
+			return true
+		}
+	}
+	return false
+}
+
+// n := copy(x[a:], src)  /  copy(x, src)  with x a local or parameter: functional update of x (go_copy);
+// Go's copy is a memmove, so a source that aliases x is read before the update, as here
+func (t *ftr) copyCall(call *ast.CallExpr, nName string) (string, bool) {
+	id, ok := call.Fun.(*ast.Ident)
+	if !ok || id.Name != "copy" || len(call.Args) != 2 {
+		return "", false
+	}
+	if _, isB := t.p.info.Uses[id].(*types.Builtin); !isB {
+		return "", false
+	}
+	var bs []bind
+	saved := t.pre
+	t.pre = &bs
+	defer func() { t.pre = saved }()
+	var base *ast.Ident
+	off := "0%Z"
+	switch d := call.Args[0].(type) {
+	case *ast.Ident:
+		base = d
+	case *ast.SliceExpr:
+		b, ok := d.X.(*ast.Ident)
+		if !ok || d.High != nil || d.Slice3 {
+			t.fail(call, "copy into %s (supported: copy(x, src), copy(x[a:], src))", types.ExprString(call.Args[0]))
+		}
+		base = b
+		if d.Low != nil {
+			o, g := t.expr(d.Low)
+			off = t.asIndex(d.Low, o, g)
+		}
+	default:
+		t.fail(call, "copy into %s (supported: copy(x, src), copy(x[a:], src))", types.ExprString(call.Args[0]))
+	}
+	name, o := t.varOf(base)
+	g := t.gtypeOf(base, o.Type())
+	src, gs := t.expr(call.Args[1])
+	if g.k != kBytes || gs.k != kBytes {
+		t.fail(call, "copy between %s and %s", g.coq(), gs.coq())
+	}
+	tmp := t.temp()
+	return renderBinds(bs) + fmt.Sprintf("%s <~ go_copy %s %s %s ;;\nlet '(%s, %s) := %s in\n", tmp, name, off, src, name, nName, tmp), true
+}
+
 func (t *ftr) assignStmt(x *ast.AssignStmt) string {
+	if len(x.Lhs) == 1 && len(x.Rhs) == 1 && (x.Tok == token.DEFINE || x.Tok == token.ASSIGN) {
+		if call, ok := x.Rhs[0].(*ast.CallExpr); ok {
+			if id, ok := call.Fun.(*ast.Ident); ok && id.Name == "copy" {
+				if lid, ok := x.Lhs[0].(*ast.Ident); ok {
+					var n string
+					if lid.Name == "_" {
+						n = "_"
+					} else if x.Tok == token.DEFINE && t.p.info.Defs[lid] != nil {
+						n = t.declare(lid, gtype{k: kInt})
+					} else {
+						n, _ = t.varOf(lid)
+					}
+					if txt, ok := t.copyCall(call, n); ok {
+						return txt
+					}
+				}
+			}
+		}
+	}
 	var b strings.Builder
 	var bs []bind
 	saved := t.pre
